@@ -134,6 +134,9 @@ func Debugf(format string, args ...any) {
 		node = g.node
 	}
 	line := fmt.Sprintf("t=%d [%s] ", int64(timeSince(s)), node) + fmt.Sprintf(format, args...)
+	if dumpLog != nil {
+		dumpLog.WriteString("  # " + line + "\n")
+	}
 	s.mu.Lock()
 	s.debug = append(s.debug, line)
 	if len(s.debug) > 4000 {
